@@ -73,7 +73,8 @@ MANIFEST = {
             'next request are compared with the state before.  Master routing '
             'and the scheduler\'s raptor forwarding / backlog / unregister '
             'handling are decided on generated histories of the gated real '
-            'scheduler.',
+            'scheduler.'
+            '  Exec requests carry pre_exec statements (import, export, print): their output is captured, their exports undone.',
     'note': 'objects are built with __new__ plus constructor attributes; the '
             'ZMQ queues are the in-memory shim; quiescence is decided '
             'logically (request processes exited, sentinel passed the result '
